@@ -19,6 +19,7 @@ var rules = map[string]ruleFn{
 	"C11": ruleC11,
 	"C12": ruleC12,
 	"C13": ruleC13,
+	"C18": ruleC18,
 	"C20": ruleC20,
 }
 
